@@ -41,6 +41,9 @@ def instances(tier):
     for L in ((1, 2) if quick else (1, 2, 3)):
         out.append(dict(id="t_eval%d-Euler-vec2" % L, method="Euler", shape=[2], mode="t_eval", L=L, N=2, budget=b))
     out.append(dict(id="t_eval2-Euler-mat22", method="Euler", shape=[2, 2], mode="t_eval", L=2, N=2, budget=b))
+    # three requested times of which two coincide (multiplicities must be kept, in either direction of integration)
+    for rep in ((0, 1), (1, 2)):
+        out.append(dict(id="t_eval3-Euler-vec2-repeat%d%d" % rep, method="Euler", shape=[2], mode="t_eval", L=3, N=2, repeat=list(rep), budget=b))
     # t_eval together with dense_output=True: the columns are still the states the stepper reaches at the requested times
     out.append(dict(id="t_eval1-Euler-vec2-dense", method="Euler", shape=[2], mode="t_eval", L=1, N=2, dense=True, budget=b))
     out.append(dict(id="t_eval2-RK4Solver-vec2-dense", method="RK4Solver", shape=[2], mode="t_eval", L=2, N=1, dense=True, budget=b))
@@ -112,6 +115,12 @@ def scenario(c, inst):
         t_eval = [c.real("te%d" % i) for i in range(L)]
         for te in t_eval:
             c.assume((te - t0) * (tf - te) >= 0)
+        if inst.get("repeat"):
+            i_, j_ = inst["repeat"]
+            c.assume(c.eq(t_eval[i_], t_eval[j_]))
+            others = [k for k in range(L) if k not in (i_, j_)]
+            for k in others:
+                c.assume(t_eval[k] != t_eval[i_])
         pts = [t0] + t_eval
         for i in range(len(pts)):
             for j in range(i + 1, len(pts)):
@@ -189,10 +198,18 @@ def scenario(c, inst):
     c.check("c18.t_eval_times_are_exactly_the_requested_ones", c.all([c.any([c.le(absval(c, res.t[k] - te), tol) for te in t_eval]) for k in range(L)] +
                                                                        [c.any([c.le(absval(c, res.t[k] - te), tol) for k in range(L)]) for te in t_eval]))
     c.check("c18.t_eval_times_ordered_along_integration", c.all([c.le(0, sgn * (res.t[k + 1] - res.t[k]) + tol, 64) for k in range(L - 1)]))
+    # with multiplicities: the k-th returned time is the k-th requested time in the order of integration (insertion sort: forks on comparisons)
+    expected = []
+    for te in t_eval:
+        pos = 0
+        while pos < len(expected) and bool(sgn * (expected[pos] - te) <= 0):
+            pos += 1
+        expected.insert(pos, te)
+    c.check("c18.t_eval_kth_time_is_kth_requested_time_in_integration_order", c.all([c.le(absval(c, res.t[k] - expected[k]), tol) for k in range(L)]))
     cols = []
     cur_ok = True
     for k in range(L):
-        st, r = run(tw.integrate, res.t[k], callback=cbs)
+        st, r = run(tw.integrate, expected[k], callback=cbs)
         if st != "ok":
             cur_ok = False
             break
